@@ -30,15 +30,31 @@ def r1(ctx):
     vals = [t for _, _, t in ret_values_in_region(fa, none_e)]
     okn = edge_returns_without(fa, none_e, ip)[0] and vals and all(is_agg(t, "Ok") and is_agg(agg_field(t, "0"), "None") for t in vals)
     ctx.check(P, rule, "a block that cannot be read yields no proof", okn, "value.is_none() => Ok(None), into_proof not reached", "the not-held edge reaches into_proof or returns %s" % [term_str(v)[:40] for v in vals], key="C03|C03.R1|create_proof|no proof without block")
-    # into_proof's value: Some(read value) on the block path, None only when the valueless proof has no block
-    v = fa.arg_origin(ip[0], 1)
-    rs = roots(v)
-    from_get = [r for r in rs if gs[0] in call_root_bb(r)]
-    nones = [r for r in rs if is_agg(r, "None")]
+    # into_proof's value: Some(read value) on the block path, None only when the valueless proof has no block —
+    # whether the proof is assembled at one site (value = if block { get } else { None }) or at two
     blk = [x for x in switch_edges_on(fa, lambda o: o[0] == "disc" and ".block" in term_sig(o[1]) and term_has_call(o[1], CVP_CORE) == cv[0])]
-    good = len(rs) == 2 and from_get and nones and bool(blk) and fa.dominates(blk[0][2].get(1, -1), gs[0])
+    some_blk = blk[0][2].get(1, -1) if blk else -1
+    none_blk = blk[0][2].get(0, blk[0][3]) if blk else -1
+    good = bool(blk) and fa.dominates(some_blk, gs[0])
+    saw_get = False
+    shown = []
+    for s_ in ip:
+        v = fa.arg_origin(s_, 1)
+        shown.append(term_str(v)[:60])
+        rs = roots(v)
+        for r in rs:
+            if gs[0] in call_root_bb(r):
+                saw_get = True
+            elif is_agg(r, "None"):
+                # no value: either this site is only reached without a block, or (one-site form) the None
+                # alternative is the one assigned on the no-block edge
+                alts = [db for t_, db in guarded_values(fa, fa.blocks[s_].term["args"][1]) if db is not None and is_agg(strip(t_), "None")]
+                good = good and (fa.dominates(none_blk, s_) or (bool(alts) and all(fa.dominates(none_blk, db) for db in alts)))
+            else:
+                good = False
+    good = good and saw_get
     ctx.check(P, rule, "the proof carries the value read for its block, and no value only when it has no block", good, "value = get(block.index) if block.is_some() else None",
-              "into_proof receives %s" % term_str(v)[:120], [site_desc(fa, ip[0])], key="C03|C03.R1|create_proof|value provenance")
+              "into_proof receives %s" % shown, [site_desc(fa, s_) for s_ in ip], key="C03|C03.R1|create_proof|value provenance")
     vp = fa.arg_origin(ip[0], 0)
     ctx.check(P, rule, "the proof returned is the one created for this request", call_root_bb(vp) == [cv[0]], "valueless_proof.into_proof(value)", "into_proof receiver is %s" % term_str(vp)[:80])
     a = [fa.arg_origin(cv[0], i) for i in range(1, 5)]
